@@ -553,6 +553,39 @@ func C01(tier string) int {
 			cases = append(cases, c01case{class: fmt.Sprintf("canonical|context-names-more-than-used-%d", vi), doc: dd, canon: true, exactCtx: exact["@context"]})
 		}
 	}
+	// F3c: one document carrying the same literal magnitude in different senses at different places
+	// (decoding one value must not depend on which values were decoded before it)
+	for _, mag := range []string{"PT5S", "P1DT2H3M4S", "P2Y", "PT0S"} {
+		for _, outerNeg := range []bool{true, false} {
+			a, b := "-"+mag, mag
+			if !outerNeg {
+				a, b = mag, "-"+mag
+			}
+			if mag == "PT0S" {
+				a, b = "PT0S", "PT1S"
+			}
+			d := M{"type": "Note", "id": "https://x.example/n", "duration": a, "attachment": M{"type": "Video", "id": "https://x.example/v", "duration": b,
+				"attachment": M{"type": "Audio", "id": "https://x.example/a", "duration": a}}}
+			add("canonical|same-magnitude-both-signs", withContext(o, d, "ActivityStreams/Note"), true)
+		}
+	}
+	for _, pair := range [][2]interface{}{{"2020-01-02T03:04:05Z", "2020-01-02T03:04:05+01:00"}, {float64(3), float64(30)}, {"https://x.example/u?a=1", "https://x.example/u?a=2"}} {
+		d := M{"type": "Collection", "id": "https://x.example/c"}
+		switch v := pair[0].(type) {
+		case float64:
+			d["totalItems"] = v
+			d["items"] = M{"type": "Collection", "id": "https://x.example/c2", "totalItems": pair[1]}
+		case string:
+			if strings.HasPrefix(v, "http") {
+				d["url"] = v
+				d["items"] = M{"type": "Note", "id": "https://x.example/n2", "url": pair[1]}
+			} else {
+				d["published"] = v
+				d["items"] = M{"type": "Note", "id": "https://x.example/n2", "published": pair[1], "updated": v}
+			}
+		}
+		add("canonical|near-equal-literals-in-one-document", withContext(o, d, "ActivityStreams/Collection"), true)
+	}
 	// F4: accepted but non-canonical forms (no-loss and idempotence clauses only)
 	nc := func(class string, d M) { add("non-canonical|"+class, withContext(o, d, "ActivityStreams/Note"), false) }
 	note := func(kv ...interface{}) M {
